@@ -40,6 +40,18 @@ pub struct Arena {
 unsafe impl Send for Arena {}
 
 impl Arena {
+    /// Under Miri there is no mmap/mprotect: the arena is a plain heap allocation (leaked),
+    /// Miri itself tracks the bounds of every allocation. Buffers for the parser are then
+    /// put into exact-size allocations anyway (`Ctx::heap_mode`).
+    #[cfg(miri)]
+    pub fn new(min_usable: usize) -> Arena {
+        let usable = ((min_usable.max(1) + PAGE - 1) / PAGE + 1) * PAGE;
+        let v: Vec<u64> = vec![0u64; (usable + 2 * PAGE) / 8];
+        let base = Box::leak(v.into_boxed_slice()).as_mut_ptr() as *mut u8;
+        Arena { base, usable }
+    }
+
+    #[cfg(not(miri))]
     pub fn new(min_usable: usize) -> Arena {
         let usable = ((min_usable.max(1) + PAGE - 1) / PAGE + 1) * PAGE;
         let total = usable + 2 * PAGE;
@@ -120,6 +132,7 @@ impl Arena {
 
 impl Drop for Arena {
     fn drop(&mut self) {
+        #[cfg(not(miri))]
         unsafe {
             libc::munmap(self.base as *mut _, self.usable + 2 * PAGE);
         }
